@@ -288,7 +288,7 @@ def _r3(ctx: Context, tree: str, N: Names) -> None:
     rep.floor("C06.R3", f"stream acquisitions ({tree})", nacq, 5)
 
 
-def _r6(ctx: Context, tree: str, N: Names) -> None:
+def _r6(ctx: Context, tree: str, N: Names, rule: str = "C06.R6") -> None:
     """The pool drops a connection that reports is_closed() WITHOUT closing it: the predicate must be true only
     after the connection's own close ran (state CLOSED is stored only next to the stream close, C01.R1 + R2)."""
     from ..norm import Sym, UNKNOWN, peval
@@ -308,7 +308,7 @@ def _r6(ctx: Context, tree: str, N: Names) -> None:
                     got = peval(e, env)
                     if got is UNKNOWN or bool(got) != (state == "CLOSED"):
                         rows[f"{state},error={err},ids_exhausted={exhausted}"] = str(got)
-        rep.ob("C06.R6", fkey(tree, f, "is_closed-means-closed"), not rows, where(f),
+        rep.ob(rule, fkey(tree, f, "is_closed-means-closed"), not rows, where(f),
                "is_closed() is true exactly in state CLOSED (which is stored only by the close routine, next to the stream close)" if not rows else
                f"is_closed() is true in {sorted(rows)[:4]} although the close routine has not run: the pool removes such a connection WITHOUT closing it - its stream stays open, owned by nobody")
     for mod, cn in (("connection", "AsyncHTTPConnection"), ("socks_proxy", "AsyncSocks5Connection"), ("http_proxy", "AsyncTunnelHTTPConnection"), ("http_proxy", "AsyncForwardHTTPConnection")):
@@ -319,7 +319,7 @@ def _r6(ctx: Context, tree: str, N: Names) -> None:
         if ok and len(rets) == 2:
             flag = [r for r in own_nodes(f.node) if isinstance(r, ast.Return) and norm(r.value) == "self._connect_failed"]
             ok = "None==self._connection" in guard_atoms(guards_of(flag[0])) or "self._connection==None" in guard_atoms(guards_of(flag[0]))
-        rep.ob("C06.R6", fkey(tree, f, "is_closed-delegates"), ok, where(f), f"{cn}.is_closed returns {rets}" + ("" if ok else " - must delegate to the inner connection (failed flag only while none exists)"))
+        rep.ob(rule, fkey(tree, f, "is_closed-delegates"), ok, where(f), f"{cn}.is_closed returns {rets}" + ("" if ok else " - must delegate to the inner connection (failed flag only while none exists)"))
 
 
 def closed_store_paired(ctx: Context, rule: str, tree: str, N: Names) -> None:
@@ -383,3 +383,14 @@ def _r5(ctx: Context) -> None:
             rep.ob("C06.R5", fkey("backend", f, "closes-on-tls-failure"), ok, where(f),
                    "handshake is enclosed by a handler that closes the stream and re-raises" if ok else "a failed TLS handshake leaves the underlying socket open")
     rep.floor("C06.R5", "backend start_tls implementations", n, 3)
+
+_core_run = run
+
+
+def run(ctx: Context) -> None:  # noqa: F811
+    _core_run(ctx)
+    from . import backend
+
+    ctx.rep.rule('C06.R7', "each real backend's close()/aclose() reaches the release of its socket on every path (nothing that can raise before it outside a finally, no condition)")
+    backend.close_releases(ctx, 'C06.R7')
+    ctx.rep.explanation = (ctx.rep.explanation or '') + ' R7 (transport layer): the backend close()/aclose() reaches the OS release unconditionally on every path.'
